@@ -606,6 +606,19 @@ def rule_A_PUB(ctx, repo, cache):
                 ctx.ob('A-PUB', None, ok)
                 if not ok and first is None:
                     first = (o, e, pre)
+        # the live object itself is never opened for writing by the save routine
+        final = ('state', 'id') if routine == '__save__' else None
+        inplace = None
+        for o in outs:
+            for e in o.st.events:
+                if e.kind in ('OPENW', 'WRITE') and e.args and final is not None and e.args[0] == final:
+                    inplace = (o, e)
+        ctx.ob('A-PUB', '%s.%s no in-place write' % (lab, routine), inplace is None)
+        if inplace is not None:
+            o, e = inplace
+            ctx.fail('A-PUB', mq(ci, routine), 'live object written in place',
+                     '%s.%s opens the live file itself for writing (%s): a kill mid-write leaves a torn archive and a concurrent reader can see a partial image' % (
+                         lab, routine, wh(ci, e.line)), wh(ci, e.line), render_path(o))
         ctx.ob('A-PUB', '%s.%s' % (lab, routine), first is None and npub > 0)
         if npub == 0:
             ctx.fail('A-PUB', mq(ci, routine), 'no rename publication',
